@@ -100,7 +100,27 @@ theorem min_perm_invariant (h : StrictTotal lt) (entries entries' : List α)
 
 example : minOf lexLt [[3], [1], [2]] = some [1] := by decide
 
+/-- **sorted_enumeration_perm_invariant**: enumerating a `HashMap` through a sort by key (module
+name order: `compile_sources` lib.rs:45 since /repo 06eeb5e, `compile_sources_with_generics_preserved`
+hir_lowering.rs since /repo 15327a3, the CLI directory walk) yields the same sequence for every
+iteration order of the map. -/
+theorem sorted_enumeration_perm_invariant (h : StrictTotal lt) (entries entries' : List α)
+    (hp : entries'.Perm entries) : ofList lt entries' = ofList lt entries := by
+  apply sorted_ext _ _ h (ofList_sorted _ h) (ofList_sorted _ h)
+  intro x
+  rw [mem_ofList _ x h, mem_ofList _ x h]
+  exact hp.mem_iff
+
 end Generic
+
+/-- module names / handles as numbers ordered by `<` -/
+def natLt (a b : Nat) : Bool := decide (a < b)
+
+theorem natLt_strictTotal : StrictTotal natLt :=
+  ⟨fun a => by simp [natLt], fun a b c h1 h2 => by simp [natLt] at *; omega,
+   fun a b h1 h2 => by simp [natLt] at *; omega⟩
+
+example : ofList natLt [3, 1, 2] = ofList natLt [2, 3, 1] := by decide
 
 /-- Without the sort the loop is *not* invariant — this is exactly the shape of a fault that drops
 `sorted_by_key` (or of any first-match loop over a raw `HashMap`): full statement
@@ -157,8 +177,10 @@ theorem diagnostics_depend_on_ids_counterexample :
    by intro a b; simp only; split <;> split <;> (try split) <;> (try split) <;> omega,
    by decide⟩
 
-/-- Same for heap string ids (known finding C12-F2): two errors at the same place that differ in
-a heap-allocated name are rendered in allocation order of the two names. -/
+/-- Same for heap string ids (finding C12-F2, fixed by /repo 06eeb5e: the ids are now handed out
+along the name-sorted enumeration, `sorted_numbering_perm_invariant`; the statement below is kept
+because it is why an *unsorted* parse order leaks): two errors at the same place that differ in a
+heap-allocated name are rendered in allocation order of the two names. -/
 def e3 : Err := ⟨0, 2, 3, 2, 9, 3, [.heap 10]⟩
 def e4 : Err := ⟨0, 2, 3, 2, 9, 3, [.heap 11]⟩
 theorem diagnostics_depend_on_heap_ids_counterexample :
@@ -168,6 +190,31 @@ theorem diagnostics_depend_on_heap_ids_counterexample :
    fun _ _ h => h,
    by intro a b; simp only; split <;> split <;> (try split) <;> (try split) <;> omega,
    by decide, by decide⟩
+
+/-- Ids handed out along an enumeration: the id of handle `h` is its position. -/
+def idsOf (enumeration : List Nat) (h : Nat) : Nat := (numbering enumeration h).getD enumeration.length
+
+/-- **sorted_numbering_perm_invariant** (fix /repo 06eeb5e for finding C12-F2, /repo 15327a3):
+numbers handed out along the *name-sorted* enumeration of the modules (heap string ids during
+parsing, synthetic function / type / string-global numbers and specialisation roots during
+lowering) do not depend on the iteration order of the `HashMap`. -/
+theorem sorted_numbering_perm_invariant (items items' : List Nat) (hp : items'.Perm items) (x : Nat) :
+    numbering (ofList natLt items') x = numbering (ofList natLt items) x := by
+  rw [sorted_enumeration_perm_invariant natLt_strictTotal items items' hp]
+
+/-- **diagnostics_hash_seed_independent** (full strength for the hash-seed part of the property,
+after /repo 06eeb5e): with ids handed out along the name-sorted enumeration, the rendered report is
+the same for every iteration order of the source map and every arrival order of the per-module
+results. -/
+theorem diagnostics_hash_seed_independent (handles handles' : List Nat) (hp : handles'.Perm handles)
+    (pm pm' : List (List Err)) (hpm : pm'.Perm pm)
+    (hi : Inj (idsOf (ofList natLt handles))) :
+    render (idsOf (ofList natLt handles')) pm' = render (idsOf (ofList natLt handles)) pm := by
+  rw [sorted_enumeration_perm_invariant natLt_strictTotal handles handles' hp]
+  exact diagnostics_schedule_independent _ hi pm pm' hpm
+
+example : render (idsOf (ofList natLt [1, 0])) [[e2], [e1]] = render (idsOf (ofList natLt [0, 1])) [[e1], [e2]] := by
+  decide
 
 /-- **diagnostics_ids_partial** (`OrdStable`): if two id assignments order the reported errors
 the same way, the rendered sequences are identical. The side condition is decidable for concrete
